@@ -179,6 +179,44 @@ func run(w *core.Worker, c Case) {
 	}
 }
 
+
+// FuzzBST (thorough tier): coverage-guided fuzzing over Upsert/Delete/Get scripts (single keys and
+// runs of 24 consecutive keys), ascending/descending/coarse comparators, same run oracle.
+func FuzzBST(f *testing.F) {
+	f.Add(uint8(0), []byte{0, 5, 0, 3, 0, 8, 1, 5, 2, 8, 3, 10, 1, 20})
+	f.Add(uint8(3), []byte{3, 100, 1, 110, 1, 104, 0, 7, 2, 7})
+	f.Fuzz(func(t *testing.T, mode uint8, data []byte) {
+		if len(data) > 80 {
+			data = data[:80]
+		}
+		c := Case{Desc: mode&1 == 1, Coarse: mode&2 == 2, Full: true, Keys: -2}
+		for i := 0; i+1 < len(data); i += 2 {
+			k := int(data[i+1])
+			switch data[i] % 5 {
+			case 0:
+				c.Ops = append(c.Ops, Op{"U", k})
+			case 1:
+				c.Ops = append(c.Ops, Op{"D", k})
+			case 2:
+				c.Ops = append(c.Ops, Op{"G", k})
+			case 3:
+				for j := 0; j < 24; j++ {
+					c.Ops = append(c.Ops, Op{"U", k + j})
+				}
+			default:
+				for j := 23; j >= 0; j-- {
+					c.Ops = append(c.Ops, Op{"U", k + j*3})
+				}
+			}
+		}
+		if len(c.Ops) == 0 {
+			return
+		}
+		w := core.Probe(func(sig, detail string) { t.Fatalf("VERIF-SIG %s\nVERIF-CASE %s\n%s", sig, core.JSON(c), detail) })
+		run(w, c)
+	})
+}
+
 func TestProp(t *testing.T) {
 	r := core.Start(t, "C04")
 	defer r.Finish()
